@@ -1330,6 +1330,17 @@ class Evaluator:
             if len(args) == 2:
                 lvk = ("attr", args[0], args[1][1])
                 return env.get(lvk, self._attr(args[0], args[1][1], env))
+        if fname == "dict" and len(args) == 1 and not kws and args[0][0] in ("list", "tuple") and args[0][1] \
+                and all(x[0] == "tuple" and len(x[1]) == 2 for x in args[0][1]):
+            return ("dict", tuple((x[1][0], x[1][1]) for x in args[0][1]))            # dict([(k, v), ...])
+        if f[0] == "attr" and f[2] == "update" and len(args) == 1 and not kws and args[0][0] == "dict" and args[0][1] \
+                and all(k[0] == "const" and k[1] != "**" for k, _v in args[0][1]) and f[1][0] not in ("dict", "const"):
+            # m.update({"a": x, "b": y}) is m["a"] = x; m["b"] = y
+            for k, v in args[0][1]:
+                lvk = ("sub", f[1], k)
+                env[lvk] = v
+                res.events.append(Event("store", ("tuple", (lvk, v)), n, pc))
+            return NONE
         if fname == "setattr" and len(args) == 3 and not kws and args[1][0] == "const" and isinstance(args[1][1], str):
             lvk = ("attr", args[0], args[1][1])
             env[lvk] = args[2]
